@@ -173,6 +173,21 @@ CHECKS['C09'] = dict(
          'openpyxl and the dispatcher are external. Known findings: sign-run, double-percent, newline-join.',
     technique='Lean 4 proof of the escape encoding for all texts + round-trip oracle on the implementation + correspondence of re-parsing')
 
+CHECKS['C14'] = dict(
+    text=('Lean 4 theorems (XL.Props.C14): unknown_function / unknown_function_cell (a formula with an unimplemented '
+          'function evaluates to #NAME? in every cell it fills, whatever the arguments), undefined_name (#REF!), '
+          'fault_local (changing how one address is defined leaves every cell that does not depend on it unchanged — '
+          'an instance of the locality theorem of the workbook model), fault_interceptable (IFERROR/ISERROR see an '
+          'ordinary error value). The check injects faults (unknown function, _xlfn. function, absent sheet, absent or '
+          'unreadable workbook file, undefined name, #REF! literal) at random formula cells of random workbooks, '
+          'loads them from .xlsx files and from a dictionary (finish() included), requires that nothing raises, '
+          'compares every cell with the Lean model and every unaffected cell with the fault-free twin workbook, and '
+          'probes the faulty cells with IFERROR/ISERROR.'),
+    design='DESIGN.md §3 C14',
+    note=COMMON_NOTE + 'File-system faults (deleted/corrupt files) and openpyxl are external: exercised by the harness, '
+         'not modelled; in the model a missing sheet/book reference is a #REF! value.',
+    technique='Lean 4 proof (locality on the workbook model) + fault injection with differential correspondence')
+
 NOT_YET = {
 }
 
